@@ -148,9 +148,11 @@ class Bucket:
 
     def generate_id(self) -> bytes:
         """
-        Generate a new id.
+        Generate a new id that falls within this bucket.
         """
-        rand_node_id_bin = format(random.randint(0, 2 ** (160 - len(self.prefix_id))), "0160b")
+        suffix_length = 160 - len(self.prefix_id)
+        rand_suffix = format(random.randint(0, 2 ** suffix_length - 1), f"0{suffix_length}b") if suffix_length else ""
+        rand_node_id_bin = self.prefix_id + rand_suffix
         return binascii.unhexlify(format(int(rand_node_id_bin, 2), "040X"))
 
     def owns(self, node_id: bytes) -> bool:
